@@ -599,6 +599,7 @@ def c17(chk):
     mc_io(chk)
     trace = drive(chk, "crash")
     need_stat(chk, "crash_points", 40)
+    need_stat(chk, "crash_scenarios_rebuilt_by_tlc", 4)
     chk.validate("Trace_Stream", trace, "crash", scope=scope_of("C17"), timeout=3000)
     ev = first_event(trace, lambda o: o["ev"] == "Crash" and len(o["runs"]) > 5)
     def c_open(o):
@@ -606,10 +607,15 @@ def c17(chk):
     def c_final(o):
         o["runs"][-1]["res"] = "err"
     neg_events(chk, "Trace_Stream", [vlib.mutate_json_line(ev, f) for f in (c_open, c_final)], "crash", "C17")
+    # control on the rebuilt images: a wrong equality flag from the harness must be noticed by TLC
+    ev_ops = first_event(trace, lambda o: o["ev"] == "Crash" and "ops" in o and len(o["runs"]) > 3)
+    def c_same(o):
+        o["runs"][1]["same"] = not o["runs"][1]["same"]
+    neg_events(chk, "Trace_Stream", [vlib.mutate_json_line(ev_ops, c_same)], "crash_same", "TRANSPORT")
     o = json.loads(ev)
     chk.sample({"scenario": o["scenario"], "n": o["n"], "write_ops": o["write_ops"], "seek_ops": o["seek_ops"], "runs": o["runs"][:4] + o["runs"][-2:]})
     chk.assumptions += ["each write call is atomic and the stream is fresh (as the property's quantifier states)",
-                        "image equality is computed by the harness by byte comparison of the replayed image with the final image"]
+                        "image equality is computed by the harness by byte comparison; for the archives of at most 2500 bytes the recorded operations are in the trace and TLC rebuilds every prefix image itself and checks the flags"]
     chk.cov["rule"] = ("archive writes (0 / 7 / 4300 tiles incl. leaf spill, from memory and from a backed archive, 4 codecs, sync/async) into a "
                        "recording stream; for every k in 0..N (sampled for N > 300 in quick) the image after the first k operations is opened "
                        "with from_bytes; an image that opens must equal the final image")
